@@ -760,7 +760,12 @@ func main() {
 	defer y.Uninstall()
 
 	var scs []scenario
-	if run.Replay != "" {
+	if run.Replay != "" && strings.HasPrefix(run.ReplayKey(), "tunnel-crossing/") {
+		// replay of a tunnel-crossing witness: that case only, a few times
+		for i := 0; i < 3; i++ {
+			crossingCase("http", gortsplib.TunnelHTTP, 3)
+		}
+	} else if run.Replay != "" {
 		var w struct {
 			Scenario scenario `json:"scenario"`
 		}
@@ -793,6 +798,13 @@ func main() {
 		}(sc)
 	}
 	wg.Wait()
+	if run.Replay == "" {
+		// after the scenarios, on a quiet process: publishers whose keep-alives cross their frames
+		y.Set(0, 300)
+		n := int64(run.Pick(3, 12))
+		// (the WebSocket variant is not run yet: see DESIGN section 6, open lead)
+		crossingCase("http", gortsplib.TunnelHTTP, n)
+	}
 	run.Extra("yield_points_hit", y.Hits())
 	run.Extra("distinct_yield_orderings", len(orders))
 	run.ReportRaces()
